@@ -230,21 +230,24 @@ void SyntaxTree::buildFor(SyntaxCategory syntaxCategory)
     switch (syntaxCategory) {
         case SyntaxCategory::Declarations: {
             DeclarationSyntax* decl = nullptr;
-            parser.parseExternalDeclaration(decl);
+            if (!parser.parseExternalDeclaration(decl))
+                parser.noteFailedParse(1);
             P->rootNode_ = decl;
             break;
         }
 
         case SyntaxCategory::Expressions: {
             ExpressionSyntax* expr = nullptr;
-            parser.parseExpression(expr);
+            if (!parser.parseExpression(expr))
+                parser.noteFailedParse(1);
             P->rootNode_ = expr;
             break;
         }
 
         case SyntaxCategory::Statements: {
             StatementSyntax* stmt = nullptr;
-            parser.parseStatement(stmt, Parser::StatementContext::None);
+            if (!parser.parseStatement(stmt, Parser::StatementContext::None))
+                parser.noteFailedParse(1);
             P->rootNode_ = stmt;
             break;
          }
@@ -252,6 +255,7 @@ void SyntaxTree::buildFor(SyntaxCategory syntaxCategory)
         default:
             P->rootNode_ = parser.parse();
     }
+    parser.diagnoseFailedParseIfUndiagnosed();
     P->parseExitedEarly_ = parser.peek().kind() != SyntaxKind::EndOfFile;
 
     if (!P->diagnostics_.empty() || !parser.detectedAnyAmbiguity())
